@@ -342,7 +342,8 @@ class C15(Check):
             '(b) nesting: an outer program with a nested run() inserted at a generated step vs. the same programs run separately; '
             '(c) 2-5 real threads each running a list of (nested) simulations, with harness-owned rendezvous points that force '
             'cross-thread overlap. non-trivial = history with >=2 runs of which one is failing/leaking/nested/dirty; nesting at a '
-            'non-initial step; thread case with >=1 rendezvous inside a run; distinct by sha1.')
+            'non-initial step; thread case with >=1 rendezvous inside a run; distinct by sha1. Also nested simulations about the very '
+            'dates / till of the enclosing one, doubly nested runs, and histories over shared flags with connective-guarded blocks.')
     budgets = {'quick': dict(examples=800, procs=4), 'thorough': dict(examples=12000, procs=16)}
     level_text = ('History invariants and metamorphic relations: after every run - however it ended - the thread sees no simulation; '
                   'roots start in argument order at `start`; the first escaping exception object is re-raised; unreceived return '
